@@ -2,28 +2,23 @@ import Chewing.Proofs.TrieBufObs
 /-!
 Prefix (`FuzzyPartialPrefix`) lookup of a `TrieBuf` against the map it denotes.
 
-The code scans the *persisted* leaves whose key matches the query, drops the phrases that have a pending
-entry or a tombstone keyed by the *query*, and appends the pending entries of *exactly* the query key
-(`Trie::lookup_all_phrases` does not return the key a persisted phrase was found under).
-`fuzzyClass s q` (class `FuzzyOverTombstoneOrPending` of finding F36) says that this shortcut is
-visible: a pending entry or a tombstone sits under a matching key other than `q`, or a tombstone /
-a pending entry of `q` hides a persisted phrase of another matching key.  Outside the class the answer
-is the map's (no further exclusion since fix 8e6d504).
+Since fix 097161a (F36) the code answers a prefix lookup from the merged view `entries_iter()` — persisted
+entries without a pending entry of the same key, then the pending entries, minus tombstones, every filter
+keyed by the ENTRY's own key — restricted to the keys that match the query syllable by syllable.  The
+answer is therefore the map's in **every** state: `fuzzy_of_entries` derives the prefix-lookup
+specification from the enumeration specification for any matching predicate, `fuzzy_agrees` instantiates
+it with `entries_agrees`.
+
+Before the fix the code scanned the persisted leaves only, added the pending entries of exactly the query
+key and applied the pending / tombstone filters keyed by the QUERY (`Trie::lookup_all_phrases` does not
+return the key a phrase was found under); the theorem carried the exclusion `fuzzyClass s q = false`
+(class `FuzzyOverTombstoneOrPending`) and the side condition `fuzzyMatch q q = true`.  Both are gone.
 -/
 namespace Chewing
 open MapSpec
 
 namespace TrieBuf
 open Trie
-
-/-- F36 class `FuzzyOverTombstoneOrPending` -/
-def fuzzyClass (s : State) (q : Key) : Bool :=
-  s.btree.any (fun e => e.1.1 != q && fuzzyMatch e.1.1 q) ||
-  s.grave.any (fun g => g.1 != q && fuzzyMatch g.1 q) ||
-  s.grave.any (fun g => g.1 == q &&
-    s.snap.any (fun l => l.1 != q && fuzzyMatch l.1 q && l.2.any (fun p => p.text == g.2))) ||
-  s.btree.any (fun e => e.1.1 == q &&
-    s.snap.any (fun l => l.1 != q && fuzzyMatch l.1 q && l.2.any (fun p => p.text == e.1.2)))
 
 theorem mem_lookupAll_fuzzy {t : List Leaf} {q : Key} {p : Phrase} :
     p ∈ Trie.lookupAll t q .fuzzyPartialPrefix ↔ ∃ l ∈ t, fuzzyMatch l.1 q = true ∧ p ∈ l.2 := by
@@ -33,97 +28,114 @@ theorem mem_lookupAll_fuzzy {t : List Leaf} {q : Key} {p : Phrase} :
   · rintro ⟨ps, ⟨l, ⟨hl, hm⟩, rfl⟩, hp⟩; exact ⟨l, hl, hm, hp⟩
   · rintro ⟨l, hl, hm, hp⟩; exact ⟨l.2, ⟨l, ⟨hl, hm⟩, rfl⟩, hp⟩
 
-theorem fuzzyClass_false {s : State} {q : Key} (h : fuzzyClass s q = false) :
-    (∀ e ∈ s.btree, fuzzyMatch e.1.1 q = true → e.1.1 = q) ∧
-    (∀ g ∈ s.grave, fuzzyMatch g.1 q = true → g.1 = q) ∧
-    (∀ t, (q, t) ∈ s.grave → ∀ l ∈ s.snap, fuzzyMatch l.1 q = true → (∃ p ∈ l.2, p.text = t) → l.1 = q) ∧
-    (∀ t w, ((q, t), w) ∈ s.btree → ∀ l ∈ s.snap, fuzzyMatch l.1 q = true → (∃ p ∈ l.2, p.text = t) → l.1 = q) := by
-  unfold fuzzyClass at h
-  simp only [Bool.or_eq_false_iff, List.any_eq_false, Bool.and_eq_true, bne_iff_ne, ne_eq, not_and,
-    Bool.not_eq_true, beq_iff_eq, List.any_eq_true, not_exists] at h
-  obtain ⟨⟨⟨h1, h2⟩, h3⟩, h4⟩ := h
-  refine ⟨?_, ?_, ?_, ?_⟩
-  · intro e he hm
-    by_cases c : e.1.1 = q
-    · exact c
-    · have := h1 e he c; rw [hm] at this; exact absurd this (by simp)
-  · intro g hg hm
-    by_cases c : g.1 = q
-    · exact c
-    · have := h2 g hg c; rw [hm] at this; exact absurd this (by simp)
-  · rintro t ht l hl hm ⟨p, hp, et⟩
-    by_cases c : l.1 = q
-    · exact c
-    · exact absurd et (h3 (q, t) ht rfl l hl ⟨c, hm⟩ p hp)
-  · rintro t w hw l hl hm ⟨p, hp, et⟩
-    by_cases c : l.1 = q
-    · exact c
-    · exact absurd et (h4 ((q, t), w) hw rfl l hl ⟨c, hm⟩ p hp)
-
 theorem mkPhrase_freq (t : Text) (v : Val) : (mkPhrase t v).freq = v.1 := rfl
 
-/-- **prefix lookup** outside the class of F36 -/
-theorem fuzzy_agrees {s : State} (hs : Inv s) (q : Key) (hq : fuzzyMatch q q = true)
-    (hc : fuzzyClass s q = false) :
-    IsFuzzyLookup fuzzyMatch (abs s) q (lookupAll s q .fuzzyPartialPrefix) := by
-  obtain ⟨c1, c2, c3, c4⟩ := fuzzyClass_false hc
-  have hmemC : ∀ p, p ∈ entriesIterFor s q .fuzzyPartialPrefix ↔
-      (q, p.text) ∉ s.grave ∧ (((∃ l ∈ s.snap, fuzzyMatch l.1 q = true ∧ p ∈ l.2) ∧ ∀ w, ((q, p.text), w) ∉ s.btree) ∨
-        ∃ v, ((q, p.text), v) ∈ s.btree ∧ p = mkPhrase p.text v) := by
-    intro p
-    unfold entriesIterFor
-    simp only [List.mem_filter, List.mem_append, mem_lookupAll_fuzzy, mem_btreeRange, List.contains_eq_mem,
-      Bool.not_eq_true', decide_eq_false_iff_not, btHas_false]
-    constructor
-    · rintro ⟨h1, h2⟩; exact ⟨h2, h1⟩
-    · rintro ⟨h1, h2⟩; exact ⟨h2, h1⟩
-  unfold lookupAll
+/-- the candidates of a prefix lookup: the phrases of the enumerated entries whose key matches -/
+theorem mem_fuzzy_cands {mt : Key → Key → Bool} {es : List Entry} {q : Key} {p : Phrase} :
+    p ∈ (es.filter (fun e => mt e.1 q)).map (·.2) ↔ ∃ key, mt key q = true ∧ (key, p) ∈ es := by
+  simp only [List.mem_map, List.mem_filter]
+  constructor
+  · rintro ⟨e, ⟨he, hm⟩, rfl⟩; exact ⟨e.1, hm, he⟩
+  · rintro ⟨key, hm, he⟩; exact ⟨(key, p), ⟨he, hm⟩, rfl⟩
+
+/-- **from the enumeration to the prefix lookup**, for any matching predicate: if `es` enumerates the map
+    (`IsEntries`), then selecting the entries whose key matches `q` and running the de-duplication loop
+    over their phrases is a correct prefix lookup (`IsFuzzyLookup`) -/
+theorem fuzzy_of_entries (mt : Key → Key → Bool) {m : Map} {es : List Entry} (h : IsEntries m es) (q : Key) :
+    IsFuzzyLookup mt m q (dedup ((es.filter (fun e => mt e.1 q)).map (·.2))) := by
   refine ⟨dedup_texts_nodup _, ?_, ?_⟩
   · intro p hp
-    obtain ⟨hg, h⟩ := (hmemC p).mp (mem_of_mem_dedup hp)
-    rcases h with ⟨⟨l, hl, hm, hpl⟩, hnq⟩ | ⟨v, hv, hpv⟩
-    · refine ⟨l.1, hm, (absOver_eq_some hs.snap hs.bt).mpr ⟨?_, Or.inr ⟨?_, l, hl, rfl, p, hpl, rfl, rfl⟩⟩⟩
-      · intro hgl
-        have := c2 _ hgl hm
-        simp only at this
-        rw [this] at hgl
-        exact hg hgl
-      · intro w hw
-        have e := c1 _ hw hm
-        simp only at e
-        rw [e] at hw
-        exact hnq w hw
-    · refine ⟨q, hq, (absOver_eq_some hs.snap hs.bt).mpr ⟨hg, Or.inl ?_⟩⟩
-      have : valOf p = v := by rw [hpv, valOf_mkPhrase]
-      rw [this]; exact hv
+    obtain ⟨key, hm, he⟩ := mem_fuzzy_cands.mp (mem_of_mem_dedup hp)
+    exact ⟨key, hm, h.2.1 (key, p) he⟩
   · intro key t v hm hv
-    obtain ⟨hg, h⟩ := (absOver_eq_some hs.snap hs.bt).mp hv
-    rcases h with h | ⟨hn, l, hl, el, p, hp, et, hpv⟩
-    · have e := c1 _ h hm
-      simp only at e
-      subst e
-      have hC : mkPhrase t v ∈ entriesIterFor s key .fuzzyPartialPrefix :=
-        (hmemC _).mpr ⟨hg, Or.inr ⟨v, h, rfl⟩⟩
-      obtain ⟨r, hr, er, fr⟩ := dedup_max hC
-      exact ⟨r, hr, er, fr⟩
-    · have hgq : (q, t) ∉ s.grave := by
-        intro hgq
-        have e := c3 t hgq l hl (by rw [el]; exact hm) ⟨p, hp, et⟩
-        rw [el] at e
-        rw [e] at hg
-        exact hg hgq
-      have hbq : ∀ w, ((q, t), w) ∉ s.btree := by
-        intro w hw
-        have e := c4 t w hw l hl (by rw [el]; exact hm) ⟨p, hp, et⟩
-        rw [el] at e
-        rw [e] at hn
-        exact hn w hw
-      have hC : p ∈ entriesIterFor s q .fuzzyPartialPrefix :=
-        (hmemC _).mpr ⟨by rw [et]; exact hgq, Or.inl ⟨⟨l, hl, by rw [el]; exact hm, hp⟩, by rw [et]; exact hbq⟩⟩
-      obtain ⟨r, hr, er, fr⟩ := dedup_max hC
-      refine ⟨r, hr, by rw [er, et], ?_⟩
-      have : v.1 = p.freq := by rw [← hpv]; rfl
-      rw [this]; exact fr
+    obtain ⟨e, he, e1, e2⟩ := h.2.2 key t v hv
+    have hc : e.2 ∈ (es.filter (fun e => mt e.1 q)).map (·.2) :=
+      mem_fuzzy_cands.mpr ⟨e.1, by rw [e1]; exact hm, he⟩
+    obtain ⟨r, hr, er, fr⟩ := dedup_max hc
+    refine ⟨r, hr, by rw [er, e2], ?_⟩
+    have hv' := h.2.1 e he
+    rw [e1, e2, hv] at hv'
+    have : v.1 = e.2.freq := by
+      have := congrArg Prod.fst (Option.some.inj hv')
+      simpa [valOf] using this
+    rw [this]; exact fr
+
+/-- the candidates of a prefix lookup are the matching entries of the enumeration -/
+theorem entriesIterFor_fuzzy (s : State) (q : Key) :
+    entriesIterFor s q .fuzzyPartialPrefix = ((entries s).filter (fun e => fuzzyMatch e.1 q)).map (·.2) := rfl
+
+/-- membership in the candidates of a prefix lookup, in terms of the three layers: the phrase sits under
+    a matching key, that key has no tombstone, and it is either pending or persisted without a pending
+    entry — all keyed by the entry's OWN key (what F36 got wrong) -/
+theorem mem_fuzzy_entriesIterFor {s : State} {q : Key} {p : Phrase} :
+    p ∈ entriesIterFor s q .fuzzyPartialPrefix ↔ ∃ key, fuzzyMatch key q = true ∧ (key, p.text) ∉ s.grave ∧
+      (((∃ l ∈ s.snap, l.1 = key ∧ p ∈ l.2) ∧ ∀ w, ((key, p.text), w) ∉ s.btree) ∨
+        ∃ v, ((key, p.text), v) ∈ s.btree ∧ p = mkPhrase p.text v) := by
+  rw [entriesIterFor_fuzzy, mem_fuzzy_cands]
+  constructor
+  · rintro ⟨key, hm, he⟩
+    exact ⟨key, hm, mem_entries.mp he⟩
+  · rintro ⟨key, hm, h⟩
+    exact ⟨key, hm, mem_entries.mpr h⟩
+
+/-- selecting the entries of a trie file by a predicate on the key = selecting its leaves -/
+theorem trie_entries_of_pred (t : List Leaf) (P : Key → Bool) :
+    ((Trie.entries t).filter (fun e => P e.1)).map (·.2) = ((t.filter (fun l => P l.1)).map (·.2)).flatten := by
+  induction t with
+  | nil => rfl
+  | cons x r ih =>
+    have hx : ∀ ps : List Phrase, ((ps.map (fun p => (x.1, p))).filter (fun e : Entry => P e.1)).map (·.2)
+        = if P x.1 = true then ps else [] := by
+      intro ps
+      induction ps with
+      | nil => simp
+      | cons p ps ihp =>
+        by_cases hb : P x.1 = true
+        · simp only [hb, if_true] at ihp ⊢
+          simp only [List.map_cons, List.filter_cons, hb, if_true, ihp]
+        · have hb' : P x.1 = false := by simpa using hb
+          simp only [hb', Bool.false_eq_true, if_false] at ihp ⊢
+          simp only [List.map_cons, List.filter_cons, hb', Bool.false_eq_true, if_false, ihp]
+    unfold Trie.entries at ih ⊢
+    simp only [List.flatMap_cons, List.filter_append, List.map_append, hx, ih]
+    by_cases hb : P x.1 = true
+    · simp only [hb, if_true, List.filter_cons, List.map_cons, List.flatten_cons]
+    · have hb' : P x.1 = false := by simpa using hb
+      simp only [hb', Bool.false_eq_true, if_false, List.filter_cons, List.nil_append]
+
+/-- the persisted candidates of a prefix lookup are what `Trie::lookup_all_phrases` returns for that
+    strategy: with nothing pending and no tombstone the repaired code answers as the code before the fix -/
+theorem trie_entries_fuzzy (t : List Leaf) (q : Key) :
+    ((Trie.entries t).filter (fun e => fuzzyMatch e.1 q)).map (·.2) = Trie.lookupAll t q .fuzzyPartialPrefix :=
+  trie_entries_of_pred t (fun k => fuzzyMatch k q)
+
+/-- both strategies in one formula: the candidates of a lookup are the phrases of the enumerated entries
+    whose key matches the query under the strategy's predicate (`==` / per-syllable prefix) -/
+theorem entriesIterFor_uniform (s : State) (k : Key) (st : Strategy) :
+    entriesIterFor s k st = ((entries s).filter (fun e => keyMatch st e.1 k)).map (·.2) := by
+  cases st with
+  | standard => exact (entries_of_key s k).symm
+  | fuzzyPartialPrefix => rfl
+
+/-- **prefix lookup**, in every state, for every query: one entry per phrase text that is live under some
+    matching key, carrying the value of one such key and the highest frequency among them -/
+theorem fuzzy_agrees {s : State} (hs : Inv s) (q : Key) :
+    IsFuzzyLookup fuzzyMatch (abs s) q (lookupAll s q .fuzzyPartialPrefix) :=
+  fuzzy_of_entries fuzzyMatch (entries_agrees hs) q
+
+/-- the phrase texts a prefix lookup returns: exactly those live under a matching key, each once -/
+theorem fuzzy_texts {s : State} (hs : Inv s) (q : Key) :
+    (texts (lookupAll s q .fuzzyPartialPrefix)).Nodup ∧
+      ∀ t, t ∈ texts (lookupAll s q .fuzzyPartialPrefix) ↔ ∃ key v, fuzzyMatch key q = true ∧ abs s (key, t) = some v := by
+  obtain ⟨h1, h2, h3⟩ := fuzzy_agrees hs q
+  refine ⟨h1, fun t => ⟨?_, ?_⟩⟩
+  · intro ht
+    obtain ⟨p, hp, rfl⟩ := mem_texts.mp ht
+    obtain ⟨key, hm, hv⟩ := h2 p hp
+    exact ⟨key, _, hm, hv⟩
+  · rintro ⟨key, v, hm, hv⟩
+    obtain ⟨p, hp, e, _⟩ := h3 key t v hm hv
+    exact mem_texts.mpr ⟨p, hp, e⟩
 
 end TrieBuf
 
